@@ -34,6 +34,18 @@ MANIFEST = {
 }
 
 NEG_FRACTION_KEY = "parse_gmt_offset:-0.MM-read-as-positive"
+NAME_AS_MINUTES_KEY = "tz_name:two-digit-name-read-as-minutes"      # emitted only if listed in known_findings.json (else: separator tolerance, DESIGN.md section 9)
+MINUTES_LIKE = re.compile(r"\d\d(:|\Z)")
+
+
+def minutes_like(name):
+    """a zone name the recogniser takes for minutes when it follows whole hours: two decimal digits, then the end or a colon"""
+    return name is not None and MINUTES_LIKE.match(name) is not None
+
+
+def _name_quirk_listed():
+    known, _ = C.load_findings(PROP)
+    return any(f["key"] == NAME_AS_MINUTES_KEY for f in known)
 US_DAY = 86400 * 10 ** 6
 
 
@@ -210,6 +222,9 @@ def evaluate(T, c):
     # in-domain aware value (year 1900-2200, whole-minute offset -12:00..+14:00, newline-free name)
     offmin = c["offsec"] // 60
     y, mo, d, h, mi, s, us = c["fields"]
+    name_quirk = minutes_like(name) and offmin % 60 == 0
+    if name_quirk and not _name_quirk_listed():
+        return out, fails, item          # the name would be read as minutes: separator tolerance, outside the domain
     true_wall = tod_us(h, mi, s, us) if timeonly else wall_us(y, mo, d, h, mi, s, us)
     negfrac = -60 < offmin < 0
     if out[0] != "ok":
@@ -233,7 +248,7 @@ def evaluate(T, c):
     else:
         got = tod_us(*back[1][3:]) if timeonly else wall_us(*back[1])
         if got != want or not back[2]:
-            fail(NEG_FRACTION_KEY if negfrac else "roundtrip:instant-changed",
+            fail(NEG_FRACTION_KEY if negfrac else (NAME_AS_MINUTES_KEY if name_quirk else "roundtrip:instant-changed"),
                  "%s: %r is written %r, which reads back as fields %r: %d us from the written instant (original instant must come back to within half a millisecond)"
                  % (c["t"], v, out[1], back[1], got - want), observed=[out, back])
     return out, fails, item
@@ -311,6 +326,8 @@ def valid_conv_case(rng, timeonly):
     if rng.random() < 0.03:
         text += "\n"           # `$` tolerance: not part of the notation, no demand
         expect = None
+    elif form in (2, 3) and "." not in off and minutes_like(name):
+        expect = None          # [+5:30]: the name is taken for minutes (separator tolerance), no demand
     elif timeonly:
         expect = (tod_us(h, mi, s, ms * 1000) - offmin * 60 * 10 ** 6) % US_DAY
     else:
@@ -439,8 +456,8 @@ def unconv_case(rng, timeonly, domain=True):
     name = rnd_name(rng) if kind == "named" else None
     if kind == "named" and name is None:
         kind = "noname"
-    if domain and name is not None and "\n" in name:
-        name = "N"
+    if not domain and kind == "named" and rng.random() < 0.05:
+        name = rng.choice(["a\nb", "\n", "30", "05:x", "٣٠"])
     return {"op": "unconv", "t": "tm" if timeonly else "dt", "fields": [y, mo, d, h, mi, s, us], "offsec": offsec, "name": name, "tzkind": kind, "domain": domain}
 
 
@@ -486,7 +503,7 @@ def run(rep, tier, rng):
         if b["expect"] is not None:
             cases += corrupt_cases(rng, b)
     cases += misc_conv_cases(rng, list(U.TZS), thorough)
-    cases += bracket_enum_cases(rng, 5 if thorough else (4 if deep else 3), 4000 if thorough else 600)
+    cases += bracket_enum_cases(rng, 5 if thorough else 3, 4000 if thorough else (6000 if deep else 600))
     # values: in-domain (1900-2200, whole minutes -12:00..+14:00) and beyond (years 1-9999, any whole-second offset)
     cases += [unconv_case(rng, False, True) for _ in range(3000 * scale)] + [unconv_case(rng, True, True) for _ in range(1000 * scale)]
     cases += [unconv_case(rng, False, False) for _ in range(1200 * scale)] + [unconv_case(rng, True, False) for _ in range(300 * scale)]
@@ -518,7 +535,8 @@ def run(rep, tier, rng):
                 "sub-millisecond resolution incl. rounding edges x all 1561 whole-minute offsets x named/unnamed/name-less tzinfo, written, re-read by a strict "
                 "reader and by the library (round trip); naive values both ways. Beyond the property's domain (correspondence only): years 1-9999, "
                 "sub-minute offsets, quirk forms ([-:EST], any separator, trailing newline, non-ASCII decimal digits, int() digit limit), offset-bracket contents "
-                "over 0 1 5 - + . : x E S T ] exhaustively to length %d. non-trivial = implementation returned a value; distinct by full case" % (5 if thorough else (4 if deep else 3)))
+                "over 0 1 5 - + . : x E S T ] exhaustively to length %d plus %d longer samples. non-trivial = implementation returned a value; distinct by full case"
+                % (5 if thorough else 3, 4000 if thorough else (6000 if deep else 600)))
     bad = C.coq_bad_indices(PROP, "dt", ["Base.Digits", "Model.Calendar", "Model.DateTimeM", "Model.DateTimeMCases", "Gen.DateTimeGen"],
                             "dcase_ok nd_zeros tzs", "dcase", items, shard=2000)
     for i in bad[:60]:
